@@ -17,6 +17,11 @@ TWINS = {'m03d': {'C03'}, 'm08h': {'C08'}, 'm09h': {'C09'}}
 def prepare(run):
     from .rules import common
     common.QUERY_LOG = []
+    # the helper-inlining normalisation is exercised on synthetic modules (before/after differential): a wrong
+    # transformation would silently change what every rule sees
+    r = subprocess.run([os.path.join(VERIF, 'tools', 'test_inline.py')], stdout=subprocess.PIPE, stderr=subprocess.STDOUT, text=True)
+    if r.returncode != 0:
+        raise AnalysisError('inliner self-test failed: %s' % r.stdout[-400:])
 
 
 def path_crosscheck(run, mod):
